@@ -8,6 +8,8 @@
 (*             `async with` body ends: "plain" | "tryexc" | "tryfin" |      *)
 (*             "condret" | "acm": the nursery is opened inside a stdlib     *)
 (*             @asynccontextmanager generator, the open_service() idiom;   *)
+(*             "wrap": the nursery manager is wrapped by an async manager  *)
+(*             with a registered unwrap_context hook;                      *)
 (*             kids: child tasks in start order)                           *)
 (*   where[t]  "body"   waiting for a command inside its innermost nursery  *)
 (*                      body (or at top level if it has none)               *)
